@@ -31,7 +31,7 @@ add(
     "Generated order sequences (grid containing interface values, jumps over the region, constructive multi-excursion paths) "
     "are weighed by wirefence_weight_and_pick / compute_weight / calc_cv_vector / high_acc_swap and compared with a reference "
     "written from the statement; time-reversal metamorphic relation; selection law checked exactly over a grid of scripted draws; frames 1 ulp / 1e-9 / 3e-8 "
-    "from an interface; the weight-vector and swap parts also run the same system translated along the order-parameter axis (cap, interfaces, lambda_-1 on 0.0). Part `moves`: paths as wire_fencing hands them back through run_md (pasted, reversed, extended in place) carry the weight vector of their frames. Sampled.",
+    "from an interface; the weight-vector and swap parts also run the same system translated along the order-parameter axis (cap, interfaces, lambda_-1 on 0.0; lambda_-1 also as an integer, as TOML delivers a value written without a decimal point). Part `moves`: paths as wire_fencing hands them back through run_md (pasted, reversed, extended in place) carry the weight vector of their frames. Sampled.",
     "compute_weight doubling only claimed for end points strictly outside the outer interfaces; ties u == cum/n accept either segment.",
 )
 add(
@@ -180,7 +180,7 @@ add(
     "integer-typed masses, positions, old velocities, temperatures, zero_momentum settings, stream seeds, ASE velocity-Verlet / Langevin with and without fixcm, TurtleMD systems of one, two and three dimensions); "
     "before the statistics a second engine of the same class, temperature and size but other masses draws in the same process; modify_velocities is checked per call with "
     "independent readers of the written frame (positions/box/identities preserved, source frame byte-identical, zero momentum, kin_new = 1/2 sum m "
-    "v^2 of the written velocities, dek, reproducible from the job stream only, global RNG untouched) and statistically (per atom mean 0 and "
+    "v^2 of the written velocities, dek, reproducible from the job stream only, global RNG untouched) the wire-fencing move is run with the scripted engine, which records every velocity request: zero_momentum as configured reaches the engine; and statistically (per atom mean 0 and "
     "<m v^2> = kT within 6 SE, chi-square normality) with CODATA-style constants that are not taken from the engine modules. Sampled.",
     "Velocities generated by the external GROMACS binary are outside the property. Tolerances follow the written precision (15.9f in xyz/g96).",
 )
@@ -191,9 +191,9 @@ add(
     "g96, extended-xyz and lammpstrj files are written by the harness and read by infretis, and written by infretis and read by independent "
     "parsers (values filling the fixed-width fields, shuffled ids, non-zero lower box bounds, 3/9-component boxes, multi-frame files, frame k "
     "extraction, velocity reversal changes velocities only); TRR frames from an independent struct encoder decode exactly for 2 byte orders x "
-    "2 precisions and identically across byte orders, also with velocity / force blocks in some frames only and triclinic boxes (all nine g96 BOX entries); "
+    "2 precisions and identically across byte orders, also with velocity / force blocks in some frames only and triclinic boxes (all nine g96 BOX entries), frames that carry any subset of the box / virial / pressure matrices; "
     "mdp / CP2K (incl. keywords repeated within a section and sibling sections with one and the same header) / LAMMPS template editors are compared with reference edit models "
-    "(exactly the requested entries change; second application is a no-op; CP2K compared as unordered section trees). Sampled.",
+    "(exactly the requested entries change - numeric values incl. 0 and 0.0 as the engines pass them; second application is a no-op; CP2K compared as unordered section trees). Sampled.",
     "Editors are driven with the engines' call patterns; velocities fit the 15-character g96 field with either sign; LAMMPS write_for_run consumes its variables, so idempotence means 'function of template and settings'.",
 )
 add(
@@ -235,7 +235,7 @@ add(
     "earlier restart with jobs in flight) an interposer numbers every file-system effect of the main process inside treat_output (open-for-write, "
     "content commit, move, remove, rmdir, every single mkdir, replace) in a dry run; then the process is killed before EVERY effect index (content commits: "
     "0 bytes, a prefix, all but one byte), plus second crashes inside the recovery run and while the restart is being prepared (setup_config's repair of the data file). In fresh forks the restart must start and load every "
-    "path with non-zero weight, re-issue the recorded in-flight jobs (and the record on disk must list exactly the jobs that were in flight when it was written, by the dry run's trace), continue to the requested steps keeping the per-step invariants of "
+    "path with non-zero weight, re-issue the recorded in-flight jobs (and the restart file on disk must be the one of the previous or of the interrupted step, and its record must list exactly the jobs that were in flight when it was written, by the dry run's trace), continue to the requested steps keeping the per-step invariants of "
     "C04/C05/C14, list every replaced path exactly once in the data file and conserve the weights. Exhaustive over single crash points of the "
     "chosen target steps (incl. the step before the last of a multi-worker run, continued to the same step count: the jobs in flight then cover all steps that are left - every counted step must be a completed move); scenarios are sampled.",
     "Crash = process death (os._exit), not power loss: data not yet written by the process is lost, written data persists. Buffered writes are "
